@@ -7,9 +7,9 @@ Import ListNotations.
 Local Open Scope string_scope.
 
 Definition urrseq_model_shape : list string * string * list string :=
-  (["info, ok := s.URRIDs[urrid]"; "if !ok { return 0 }"; "seq := info.SEQN"; "info.SEQN++"; "return seq"],
+  (["v2, v3 := recv.URRIDs[v1]"; "if !v3 { return 0 }"; "v4 := v2.SEQN"; "v2.SEQN++"; "return v4"],   (* locals printed canonically *)
    "uint32",
-   ["CreateURR: info.SEQN = prev.SEQN"]).
+   ["CreateURR: v.SEQN = v.SEQN"]).
 
 Lemma urrseq_shape_ok : (urrseq_body, urr_seqn_type, urr_seqn_other_writes) = urrseq_model_shape.
 Proof. reflexivity. Qed.
